@@ -116,6 +116,19 @@ class DocGen:
             it = self.field(f, depth, used)
             if it:
                 items.append(it)
+        # the same composite field once more under another alias: its nested types must be told apart by the alias
+        comp = [it for it in items if it[0] == "field" and it[4] and not it[3]]
+        if comp and rng.random() < 0.15:
+            import copy as _copy
+            src = rng.choice(comp)
+            f = s.field(tname, src[2])
+            self.aliasn += 1
+            al = "twin%d" % self.aliasn
+            sub2 = _copy.deepcopy(src[4]) if rng.random() < 0.5 else (self.selection(base(f["type"]), depth + 1) if depth < self.max_depth else None)
+            if sub2 and al not in used:
+                items.append(["field", al, src[2], None, sub2])
+                used.add(al)
+                self.features.add("same-field-under-two-aliases")
         if rng.random() < self.p_typename_obj:
             items.append(["typename"])
             self.features.add("typename-on-object")
